@@ -133,6 +133,7 @@ func (cs *clientState) unregister() {
 func (cs *clientState) setLock(from, to int32) {
 	us := time.Microsecond
 	for {
+		simYield("cs.atomic")
 		if atomic.CompareAndSwapInt32(&cs.blocked, from, to) {
 			return
 		}
@@ -197,6 +198,7 @@ func (cs *clientState) releaseCapture() {
 	}()
 
 	// drained - clear unblock state and release the capture
+	simYield("cs.atomic")
 	atomic.StoreInt32(&cs.unblockPending, 0)
 	cs.setLock(CS_DRAINING, CS_UNCAPTURED)
 }
@@ -208,15 +210,18 @@ func (cs *clientState) unblock(reason string, isError bool) {
 
 	for {
 		// N.B., checking is allowed in the midst of capture and release
+		simYield("cs.atomic")
 		locked := atomic.SwapInt32(&cs.blocked, CS_CHECKING)
 		if locked == CS_CAPTURED {
 			// client is probably in select waiting for the unblock
+			simYield("cs.atomic")
 			if atomic.CompareAndSwapInt32(&cs.unblockPending, 0, 1) {
 				// only one unblock is posted per capture to prevent
 				// getting stuck here
 				cs.unblockCh <- unblockReason{reason: reason, isError: isError}
 			}
 		}
+		simYield("cs.atomic")
 		atomic.SwapInt32(&cs.blocked, locked)
 
 		if locked == CS_UNCAPTURED || locked == CS_CAPTURED {
@@ -241,10 +246,12 @@ func (cs *clientState) isBlocked() bool {
 		blocked := false
 
 		// N.B., checking is allowed in the midst of capture and release
+		simYield("cs.atomic")
 		locked := atomic.SwapInt32(&cs.blocked, CS_CHECKING)
 		if locked == CS_CAPTURED {
 			blocked = true
 		}
+		simYield("cs.atomic")
 		atomic.SwapInt32(&cs.blocked, locked)
 
 		if locked == CS_UNCAPTURED || locked == CS_CAPTURED {
